@@ -11,6 +11,7 @@
   cached slopes, the controller memory that survives from one call to the next (`solver_dict_keep_keys`) holds no per-step quantity,
   and the kick / drift masks are complementary 0/1 vectors (default: second half kicks).
 """
+from fractions import Fraction
 import z3
 
 from pyvc import builtins as B
@@ -193,6 +194,9 @@ def check_rk_init(reg, src, prop, name, m):
     spec_adaptive = len(Tf.rows) == 2
     flags = dict(explicit=o.get("_explicit"), fsal=o.get("_fsal"), adaptive=o.get("_adaptive"))
     out["flags"] = flags
+    # plain-valued attributes the constructor creates (None, flags, numbers): harnesses that build the integrator object by hand add those
+    # they do not set themselves, so that a field a change introduces exists with its constructed value
+    out["plain_fields"] = {k: v for k, v in o.items() if v is None or isinstance(v, (bool, int, str, Fraction))}
     reg.ground(pre + "flags-are-the-defining-predicates-of-the-tables", "post", "RungeKuttaIntegrator.__init__",
                flags["explicit"] is spec_explicit and flags["fsal"] is spec_fsal and flags["adaptive"] is spec_adaptive, backend="symbolic-exec",
                detail="_explicit == (A strictly lower triangular) == %s, _fsal == (last row of A == b) == %s, _adaptive == (two weight rows) == %s; got %r" % (spec_explicit, spec_fsal, spec_adaptive, flags))
